@@ -734,9 +734,6 @@ pub fn execute(d: &ConcDesc, keep_trace: bool) -> RunResult {
         }
     }
     tracked::set_log(false);
-    for (t, msg) in &out.panics {
-        viol::record("panic", format!("thread {t} panicked: {msg}"));
-    }
     if !viol::any() {
         let live = tracked::live_by_payload();
         if !live.is_empty() {
